@@ -42,13 +42,17 @@ Bad(W) ==
       exp == Eval(P, W.given)
       inEq == ~exp.err              \* inside the equivalence (the plain body does not raise)
       \* known finding: a deactivated nested DAG shows a setup result that it returns directly instead of None
-      keptSetup == ~W.raised /\ W.val # exp.val /\ W.val = exp.valK
+      \* (the kept value may feed an activation flag or an operator further down: the whole observation - value, executed
+      \* sites, or the raise of a node that received it - is then the one of the "keep" reading of Dataflow.tla)
+      matchLetter == ~W.raised /\ W.val = exp.val /\ RangeOf(W.exec) = exp.exec \ RangeOf(W.pre)
+      matchKeep == IF exp.errK THEN W.raised ELSE ~W.raised /\ W.val = exp.valK /\ RangeOf(W.exec) = exp.execK \ RangeOf(W.pre)
+      keptSetup == ~matchLetter /\ matchKeep
       \* known finding: an output of a deactivated nested DAG that is an indexed / unpacked part of an inner result is
       \* computed by indexing the None of the deactivated inner node, and the call raises
       idxNone == W.raised /\ exp.errI /\ W.errclass \in {"AttributeError", "TypeError"}
       wrongVal == (W.raised \/ W.val # exp.val) /\ ~keptSetup /\ ~idxNone
       \* setup call sites computed by an earlier call on the same DAG object (W.pre) are not executed again
-      wrongExec == ~W.raised /\ RangeOf(W.exec) # exp.exec \ RangeOf(W.pre)
+      wrongExec == ~W.raised /\ RangeOf(W.exec) # exp.exec \ RangeOf(W.pre) /\ ~keptSetup
       \* known finding: the outer DAG can not be built when a nested DAG returns a literal constant
       literalRet == ~W.built /\ W.constret /\ SubReturnsConst(P)
   IN Clauses({
